@@ -524,7 +524,8 @@ def setup_ifaddrs(it, cfg):
     bcast = it.fresh("computed_broadcast", "String", "str")
     bc2, bc3 = it.fresh("computed_broadcast2", "String", "str"), it.fresh("computed_broadcast3", "String", "str")
     by_addr = {"10.0.0.5": bcast, "192.168.1.7": bc2, "172.16.0.9": bc3}
-    it.env_over["_common.broadcast_addr"] = EnvFunc("broadcast_addr", lambda it2, nt: by_addr[nt.address])
+    other = it.fresh("computed_broadcast_of_another_row", "String", "str")
+    it.env_over["_common.broadcast_addr"] = EnvFunc("broadcast_addr", lambda it2, nt: by_addr.get(nt.address, other))
     return {"args": {}, "spec": {"win": win, "bcast": bcast, "bc2": bc2, "bc3": bc3}, "values": [bcast, bc2, bc3]}
 
 
@@ -534,11 +535,12 @@ SNIC = _c.namedtuple("snicaddr", ["family", "address", "netmask", "broadcast", "
 REGISTRY.add(Contract(
     "C20", INIT, "net_if_addrs", setup=setup_ifaddrs,
     env=flags_env(), configs=[{"windows": True}, {"windows": False}], name="__init__.net_if_addrs",
+    helpers={"bc_of": lambda it, rows, addr: next((r.broadcast for r in rows if r.address == addr), "<no such row>")},
     ensures=[
         "set(result) == {'eth0', 'eth1'} and len(result['eth0']) == 2 and len(result['eth1']) == 2",
-        "implies(win, {r.address: r.broadcast for r in result['eth1']} == {'192.168.1.7': bc2, '172.16.0.9': bc3})",
-        "implies(not win, {r.address: r.broadcast for r in result['eth1']} == "
-        "{'192.168.1.7': '192.168.255.255', '172.16.0.9': '172.31.255.255'})",
+        "implies(win, bc_of(result['eth1'], '192.168.1.7') == bc2 and bc_of(result['eth1'], '172.16.0.9') == bc3)",
+        "implies(not win, bc_of(result['eth1'], '192.168.1.7') == '192.168.255.255' and "
+        "bc_of(result['eth1'], '172.16.0.9') == '172.31.255.255')",
         # rows are sorted by family: on Windows the link row (family -1) comes first, on Linux the inet row
         "implies(win, result['eth0'][1].broadcast == bcast)",             # the computed broadcast address takes effect
         "implies(not win, result['eth0'][0].broadcast == '10.0.0.255')",
